@@ -407,6 +407,12 @@ func (b *assignmentBuilder) isStructFieldAccessible(structNode bmodel.Node, leaf
 	if named, ok := structType.(*types.Named); ok {
 		return !b.isExternalPkg(named.Obj().Pkg()) || ast.IsExported(leafName)
 	}
+	// An unnamed struct type belongs to the package of the named type that encloses it.
+	for p := structNode.Parent(); p != nil; p = p.Parent() {
+		if named, ok := util.DerefPtr(p.ExprType()).(*types.Named); ok {
+			return !b.isExternalPkg(named.Obj().Pkg()) || ast.IsExported(leafName)
+		}
+	}
 	return true
 
 }
